@@ -26,5 +26,7 @@ inline uint64_t node_digest_begin(int rule) { return dmix(0x6e6f6465ull, uint64_
 inline uint64_t node_digest_add(uint64_t h, uint64_t child) { return dmix(h, child); }
 inline uint64_t node_digest_end(uint64_t h, int n) { return dmix(h, 0xe0d00000ull | uint32_t(n)); }
 inline uint64_t empty_default_digest() { return 0xdefa017ull; }
+inline uint64_t list_digest_begin() { return 0x6c697374ull; }
+inline uint64_t list_digest_add(uint64_t h, uint64_t elem) { return dmix(h, elem); }
 
 }  // namespace sim
